@@ -19,6 +19,7 @@
  */
 #include <usual/json.h>
 #include <usual/string.h>
+#include <usual/mbuf.h>
 #include <errno.h>
 #include <time.h>
 #include "hcommon.h"
@@ -93,6 +94,7 @@ static bool dump_val(struct JsonValue *v)
 		ob_put("[", 1);
 		ok = json_list_iter(v, list_cb, &it);
 		ob_put("]", 1);
+		if (!ok && !strchr(ob, '?')) ob_puts("?list-iter-false");
 		if (ok && json_value_size(v) != (size_t)it.n) { ob_puts("?size"); return false; }
 		return ok; }
 	case JSON_DICT: {
@@ -100,10 +102,21 @@ static bool dump_val(struct JsonValue *v)
 		ob_put("{", 1);
 		ok = json_dict_iter(v, dict_cb, &it);
 		ob_put("}", 1);
+		/* an iteration that gives up must not look like a smaller (or empty) object */
+		if (!ok && !strchr(ob, '?')) ob_puts("?dict-iter-false");
 		if (ok && json_value_size(v) != (size_t)it.n) { ob_puts("?size"); return false; }
 		return ok; }
 	default: ob_puts("?type"); return false;
 	}
+}
+
+/* every accepted tree must also render (json_render walks all members through json_dict_iter) */
+static void check_render(struct JsonValue *v)
+{
+	struct MBuf mb;
+	mbuf_init_dynamic(&mb);
+	if (!json_render(&mb, v)) ob_puts("?render-false");
+	mbuf_free(&mb);
 }
 
 static const char *err_class(const char *msg)
@@ -151,6 +164,7 @@ static void parse_once(const uint8_t *doc, size_t len, unsigned opts, size_t poo
 		ob_puts("ok ");
 		if (json_strerror(ctx)) ob_puts("?lasterr-set ");
 		dump_val(v);
+		check_render(v);
 	} else {
 		ob_puts("err ");
 		ob_puts(err_class(json_strerror(ctx)));
@@ -203,6 +217,7 @@ static void parse_on(struct JsonContext *ctx, const uint8_t *doc, size_t len)
 		ob_puts("ok ");
 		if (json_strerror(ctx)) ob_puts("?lasterr-set ");
 		dump_val(v);
+		check_render(v);
 	} else {
 		ob_puts("err ");
 		ob_puts(err_class(json_strerror(ctx)));
